@@ -3,7 +3,7 @@
    the segment sizes used by MultiHash.v are regenerated from SegmentedArray.h on every run (Gen_Segments.v),
    and all models are run against the real momo::DataTable / DataIndexes on every run. *)
 From Coq Require Import List ZArith Bool Permutation.
-From C07 Require Import TableSpec TableProofs NumModel MultiHash MultiHashProofs SegProofs IndexModel IndexProofs AtomicProofs RefineProofs ConsProofs ReachProofs ConflictProofs TableOps SelectionModel ProjectModel.
+From C07 Require Import TableSpec TableProofs NumModel MultiHash MultiHashProofs SegProofs IndexModel IndexProofs AtomicProofs RefineProofs ConsProofs ReachProofs ConflictProofs TableOps SelectionModel ProjectModel GroupModel.
 Import ListNotations.
 
 (* For EVERY history of table operations starting from the empty table (adds, inserts, whole-row and
@@ -494,3 +494,15 @@ Theorem C07_project_is_projection_of_scan :
   (forall k, In k (project t true p cols) <-> In k (map (proj cols) (filter (evalp p) (rows t)))).
 Proof. exact project_is_projection_of_scan. Qed.
 Print Assumptions C07_project_is_projection_of_scan.
+
+(* Selection::Group -> HashSorter::pvGroup (the swap loop run on every run of equal hash codes): for every run the result is a
+   permutation in which equal keys are adjacent (after the leading copies of a key the key does not occur again, recursively) *)
+Theorem C07_selection_group_adjacent_permutation :
+  forall fuel l, length l <= fuel -> Permutation (pvgroup fuel l) l /\ forall fuel2, grp fuel2 (pvgroup fuel l).
+Proof. exact pvgroup_spec. Qed.
+Print Assumptions C07_selection_group_adjacent_permutation.
+
+(* ... and the "first == last => all equal" shortcut of seeded change wave-2/b is refuted: A, B, A stays ungrouped *)
+Theorem C07_selection_group_shortcut_refuted : exists l, ~ grp (S (length l)) (pvsort_run_shortcut l).
+Proof. exact group_shortcut_refuted. Qed.
+Print Assumptions C07_selection_group_shortcut_refuted.
